@@ -1083,7 +1083,14 @@ func (g *vingGen) layout(h *vingH) {
 		case 4:
 			d = vingDesc{dig: "raw1", mt: "ocim", size: 13}
 		case 5:
-			d.mt = g.pick("ocim", "ocii", "dockm")
+			// a wrong media type, of the same kind: if an index that is a referrer were listed as a non-index
+			// here and as an index elsewhere, whether its children get recorded would depend on the order in
+			// which the child scan meets the two listings, i.e. on Go's map order (notes/design-C17.md, residue)
+			if d.mt == "ocii" {
+				d.mt = "dockl"
+			} else {
+				d.mt = g.pick("ocim", "ocii", "dockm")
+			}
 		}
 		return d
 	}
